@@ -1103,7 +1103,7 @@ func init() {
 	f := core.Register("C01", gen, run, shrink)
 	f.Real = []string{"gortsplib.Server, ServerStream, ServerSession, ServerConn, Client (root package, all pkg/* and internal/* it uses)", "pion rtp/rtcp/srtp/sdp", "gorilla/websocket", "crypto/tls", "net/http request/response parsing", "bufio"}
 	f.Simulated = []string{"TCP and UDP sockets, listeners, port allocation (simnet through Server.Listen/ListenPacket/TLSListen and Client.DialContext/DialTLSContext/ListenPacket)", "clock, timers, deadlines (testing/synctest fake clock)", "entropy (crypto/rand.Reader, uuid)", "goroutine interleaving at the enabled yield sites"}
-	f.Excluded = []string{"UDP-multicast transport (pkg/multicast opens raw sockets and ignores the ListenPacket seam)", "back-pressure under TLS / WebSocket (window unbounded there, DESIGN 2.3)"}
+	f.Excluded = []string{"pkg/multicast's raw-socket platform files (replaced in the scratch copy by a stand-in that binds the group address through the ListenPacket seam; everything above it - multicast writers, listeners, SETUP negotiation - is the real code; at most one multicast reader per run)", "back-pressure under TLS / WebSocket (window unbounded there, DESIGN 2.3)"}
 	f.Rule = "scenario = stream description (1..3 medias x 1..3 formats) x source (server-side writer | recording client over udp/tcp/http/ws) x 1..4 readers (udp/tcp/http/ws, plain or TLS+SRTP) with seeded join / pause / resume / leave scripts x packet sequence (sizes 10..max, seeded timestamps/markers, consecutive sequence numbers from a seeded start incl. wrap, arbitrary on reliable carriers) x fault mix (latency, chunking incl. 1-byte, UDP drop/dup/reorder/burst, bounded window + receiver stalls) x enabled yield sites; non-trivial = at least one packet delivered to a reader and (>= 1 fault kind other than plain delay fired or >= 1 yield site hit); distinct = distinct hash of the canonical event log"
 	f.Assumptions = []string{
 		"packets still queued when the reader itself sends PAUSE/TEARDOWN are not 'missing' (the reader has left)",
